@@ -34,19 +34,79 @@ import (
 	"gitlab.com/yawning/obfs4.git/internal/verifkit/wire"
 )
 
+// vfPauseConn controls WHEN the application calls Read: in stepped mode the
+// endpoint's reader goroutine needs a grant for every Read call (and the grant
+// limits that call's buffer), so bytes that have arrived can stay unread while
+// other connections run.
+type vfPauseConn struct {
+	net.Conn
+	mu      sync.Mutex
+	cond    *sync.Cond
+	stepped bool
+	grant   int  // > 0: one Read of at most this many bytes may start
+	waiting bool // the reader goroutine is blocked waiting for a grant
+}
+
+func vfNewPauseConn(stepped bool) *vfPauseConn {
+	c := &vfPauseConn{stepped: stepped}
+	c.cond = sync.NewCond(&c.mu)
+	return c
+}
+
+func (c *vfPauseConn) Read(b []byte) (int, error) {
+	c.mu.Lock()
+	for c.stepped && c.grant == 0 {
+		c.waiting = true
+		c.cond.Wait()
+	}
+	c.waiting = false
+	if c.stepped {
+		if c.grant < len(b) {
+			b = b[:c.grant]
+		}
+		c.grant = 0
+	}
+	c.mu.Unlock()
+	return c.Conn.Read(b)
+}
+
+func (c *vfPauseConn) allow(k int) {
+	c.mu.Lock()
+	c.grant, c.waiting = k, false
+	c.cond.Broadcast()
+	c.mu.Unlock()
+}
+
+func (c *vfPauseConn) free() {
+	c.mu.Lock()
+	c.stepped, c.waiting = false, false
+	c.cond.Broadcast()
+	c.mu.Unlock()
+}
+
+func (c *vfPauseConn) isWaiting() bool {
+	c.mu.Lock()
+	defer c.mu.Unlock()
+	return c.stepped && c.waiting && c.grant == 0
+}
+
 type vfMConn struct {
-	idx     int
-	arr     int
-	n       *wire.Net
-	ends    [2]*vfEnd
-	gates   [2]*vfHoldConn
-	started [2]bool
-	steps   int
+	idx         int
+	arr         int
+	n           *wire.Net
+	ends        [2]*vfEnd
+	gates       [2]*vfHoldConn
+	prs         [2]*vfPauseConn // real sides: application reader control
+	started     [2]bool
+	wrote       [2]bool // the side has done its first application Write
+	smallGrants [2]int
+	firstRead   [2]bool
+	steps       int
 	// statistics
-	overlapHeld  map[int]bool // another connection stepped while a real side of this one was held in transport write #k
-	overlapRead  bool         // ... while this one was parked waiting for peer bytes (handshake incomplete)
-	interleaved  bool
-	lastStepSeen int
+	overlapHeld                map[int]bool // another connection stepped while a real side of this one was held in transport write #k
+	overlapRead                bool         // ... while this one was parked waiting for peer bytes (handshake incomplete)
+	interleaved                bool
+	unreadWhileOtherProgressed bool // bytes had arrived for a paused application reader (handshake already consumed) while another connection completed a handshake or a first Read
 }
 
 func (m *vfMConn) ready(i int) bool {
@@ -54,12 +114,23 @@ func (m *vfMConn) ready(i int) bool {
 	return m.started[i] && e.ep.SetupDone() && e.ep.SetupErr() == nil && e.ep.Conn() != nil
 }
 
-func (m *vfMConn) complete() bool { return m.ready(0) && m.ready(1) }
+func (m *vfMConn) handshaken() bool { return m.ready(0) && m.ready(1) }
+
+// complete: both handshakes succeeded, both sides have written once and every
+// byte written has been delivered to the peer's application.
+func (m *vfMConn) complete() bool {
+	for i, e := range m.ends {
+		if !m.ready(i) || !m.wrote[i] || m.n.Pending(e.side) > 0 || m.ends[1-i].ep.GotLen() != len(e.sent) {
+			return false
+		}
+	}
+	return true
+}
 
 // settle waits until every started endpoint goroutine of the connection is
-// held in a transport write, parked in the wire's Read, or finished.  (The
-// wait itself polls; the verdicts never depend on elapsed time, only the wedge
-// watchdog does.)
+// held in a transport write, parked in the wire's Read, waiting for a Read
+// grant, or finished.  (The wait itself polls; the verdicts never depend on
+// elapsed time, only the wedge watchdog does.)
 func (m *vfMConn) settle() error {
 	deadline := time.Now().Add(wire.WatchdogDefault)
 	for {
@@ -69,6 +140,9 @@ func (m *vfMConn) settle() error {
 				continue
 			}
 			if g := m.gates[i]; g != nil && g.isHeld() {
+				continue
+			}
+			if p := m.prs[i]; p != nil && p.isWaiting() {
 				continue
 			}
 			if m.n.Done(e.side) || m.n.Parked(e.side) {
@@ -89,11 +163,12 @@ func (m *vfMConn) settle() error {
 func TestVerifC14Interleaved(t *testing.T) {
 	vfC14Anchor()
 	c := ev.For("C14")
-	c.Rule("interleaved: 2..4 connections of one process (each real client<->reference server, reference client<->real server or real<->real), every transport write of a real side held before its bytes are consumed; generated schedule of bursts (connection, 1..6 steps or 'to completion'); step = start a side / let a held write through / release pending bytes (all, 1, 7, 16, 24, 100) to a reader; every handshake must succeed, then every connection carries data both ways under the exact stream oracle; non-trivial = another connection ran at least one handshake step while a connection was parked between two of its own handshake steps; fingerprint = configuration + schedule")
+	c.Rule("interleaved: 2..4 connections of one process (each real client<->reference server, reference client<->real server or real<->real), every transport write of a real side's handshake held before its bytes are consumed; generated schedule of bursts (connection, 1..6 steps or 'to completion'); step = start a side / let a held write through / release pending bytes (all, 1, 7, 16, 24, 100) to a reader / first application Write of a side whose handshake has returned / for a real side whose application reader is stepped (2 of 3): grant one Read call of 1..64 or 65536 bytes, or resume free reading; in half of the cases connection 0 is steered so that the peer's data arrives coalesced with its key establishment message, the application reads only a few bytes of it, and the connection is left alone until another connection has made progress; every handshake must succeed, exact stream oracle after every step (prefix while the application reader is paused), then more data both ways; non-trivial = another connection ran at least one step while a connection was parked between two of its own steps before completing; fingerprint = configuration + schedule")
 	c.Floor("interleaved-nontrivial/interleaved", 0.70)
-	c.Floor("interleaved-other-ran-while-held@seed-write/interleaved", 0.35)
-	c.Floor("interleaved-other-ran-while-held@header-write/interleaved", 0.25)
-	c.Floor("interleaved-other-ran-while-waiting-for-peer/interleaved", 0.35)
+	c.Floor("interleaved-other-ran-while-held@seed-write/interleaved", 0.30)
+	c.Floor("interleaved-other-ran-while-held@header-write/interleaved", 0.20)
+	c.Floor("interleaved-other-ran-while-waiting-for-peer/interleaved", 0.30)
+	c.Floor("interleaved-unread-bytes-arrived-while-other-progressed/interleaved", 0.25)
 	rapid.Check(t, func(rt *rapid.T) {
 		K := rapid.IntRange(2, 4).Draw(rt, "connections")
 		rk := rapid.Uint64().Draw(rt, "detrand")
@@ -117,66 +192,147 @@ func TestVerifC14Interleaved(t *testing.T) {
 					e.par = vfDrawRefParams(rt, j == 0, fmt.Sprintf("c%dref%v", i, e.side))
 				} else {
 					m.gates[j] = &vfHoldConn{Conn: m.n.Conn(e.side), holdAt: -1, all: true}
+					m.prs[j] = vfNewPauseConn(rapid.IntRange(0, 2).Draw(rt, "stepped-reader") > 0)
 				}
 			}
 			conns = append(conns, m)
 			defer m.n.Shutdown()
 			defer func() {
-				for _, g := range m.gates {
-					if g != nil {
+				for j := range m.ends {
+					if g := m.gates[j]; g != nil {
 						g.holdAll(false)
 						g.letGo()
+					}
+					if p := m.prs[j]; p != nil {
+						p.free()
 					}
 				}
 			}()
 		}
-		checkConn := func(m *vfMConn, ctx string) {
-			for i, e := range m.ends {
-				if !m.started[i] {
+		var frozen *vfMConn
+		thaw := false
+		// connection m has made progress (a handshake or a first Read completed):
+		// which other connections have bytes that arrived for a paused reader?
+		progressEvent := func(m *vfMConn) {
+			if frozen != nil && m != frozen {
+				thaw = true
+			}
+			for _, o := range conns {
+				if o == m {
 					continue
 				}
-				if p, st := e.ep.Panic(); p != nil {
-					fail("c14-panic", "%s: connection %d side %v panicked: %v\n%s", ctx, m.idx, e.side, p, st)
-				}
-				if e.ep.SetupDone() && e.ep.SetupErr() != nil {
-					sig := "c14-handshake-error"
-					if !e.real {
-						sig = "c14-ref-rejects-real"
+				for i, w := range o.ends {
+					r := o.ends[1-i]
+					if !r.real || !o.wrote[i] || !o.ready(1-i) {
+						continue
 					}
-					fail(sig, "%s: handshake of connection %d side %v (real=%v) failed against a conforming peer: %v", ctx, m.idx, e.side, e.real, e.ep.SetupErr())
-				}
-				if err := e.ep.ReadErr(); err != nil {
-					fail("c14-read-error", "%s: Read on connection %d side %v (real=%v) returned %v", ctx, m.idx, e.side, e.real, err)
+					if int(o.n.Released(w.side))-w.hsLen-r.ep.GotLen() > 0 && o.prs[1-i].isWaiting() {
+						o.unreadWhileOtherProgressed = true
+					}
 				}
 			}
 		}
-		// one handshake step on connection m; returns false when nothing is enabled
-		step := func(m *vfMConn) bool {
+		checkConn := func(m *vfMConn, ctx string) {
+			wasHandshaken := m.handshaken()
+			for i, w := range m.ends {
+				r := m.ends[1-i]
+				if !m.started[1-i] {
+					continue
+				}
+				if p, st := r.ep.Panic(); p != nil {
+					fail("c14-panic", "%s: connection %d side %v panicked: %v\n%s", ctx, m.idx, r.side, p, st)
+				}
+				if r.ep.SetupDone() && r.ep.SetupErr() != nil {
+					sig := "c14-handshake-error"
+					if !r.real {
+						sig = "c14-ref-rejects-real"
+					}
+					fail(sig, "%s: handshake of connection %d side %v (real=%v) failed against a conforming peer: %v", ctx, m.idx, r.side, r.real, r.ep.SetupErr())
+				}
+				if err := r.ep.ReadErr(); err != nil {
+					fail("c14-read-error", "%s: Read on connection %d side %v (real=%v) returned %v", ctx, m.idx, r.side, r.real, err)
+				}
+				exp := 0
+				if m.wrote[i] {
+					exp = int(m.n.Released(w.side)) - w.hsLen
+					if exp < 0 {
+						exp = 0
+					}
+				}
+				got := r.ep.Got()
+				if p := m.prs[1-i]; p != nil && p.isWaiting() {
+					if len(got) > exp || !bytes.Equal(got, w.sent[:len(got)]) {
+						fail("c14-stream", "%s: connection %d direction %v->%v (application reader paused): the %d bytes delivered so far are not a prefix of the %d plaintext bytes that have arrived; first difference at %d",
+							ctx, m.idx, w.side, r.side, len(got), exp, vfFirstDiff(got, w.sent[:vfMinInt(len(got), len(w.sent))]))
+					}
+				} else if m.ready(1-i) && !bytes.Equal(got, w.sent[:exp]) {
+					fail("c14-stream", "%s: connection %d direction %v->%v: reader must hold exactly %d plaintext bytes, holds %d; first difference at %d (reader real=%v, writer real=%v)",
+						ctx, m.idx, w.side, r.side, exp, len(got), vfFirstDiff(got, w.sent[:exp]), r.real, w.real)
+				}
+				if len(got) > 0 && !m.firstRead[1-i] {
+					m.firstRead[1-i] = true
+					if r.real {
+						progressEvent(m)
+					}
+				}
+			}
+			_ = wasHandshaken
+		}
+		type stepOpt struct {
+			want     func(kind string, i int) bool // nil: draw among the enabled actions
+			all      bool
+			readLen  int
+			minWrite int
+		}
+		step := func(m *vfMConn, opt stepOpt) bool {
 			type act struct {
 				kind string
 				i    int
 			}
 			var enabled []act
 			for i := range m.ends {
-				if !m.started[i] {
+				switch {
+				case !m.started[i]:
 					enabled = append(enabled, act{"start", i})
-				} else if g := m.gates[i]; g != nil && g.isHeld() {
+				case m.gates[i] != nil && m.gates[i].isHeld():
 					enabled = append(enabled, act{"letgo", i})
+				case m.ready(i) && !m.wrote[i]:
+					enabled = append(enabled, act{"appwrite", i})
 				}
 				if m.started[1-i] && m.n.Pending(m.ends[i].side) > 0 {
 					enabled = append(enabled, act{"release", i})
+				}
+				if p := m.prs[i]; p != nil && m.started[i] && p.isWaiting() {
+					enabled = append(enabled, act{"grant", i}, act{"grant", i}, act{"free", i})
 				}
 			}
 			if len(enabled) == 0 {
 				return false
 			}
-			a := enabled[rapid.IntRange(0, len(enabled)-1).Draw(rt, "pick")]
+			var a act
+			if opt.want != nil {
+				found := false
+				for _, x := range enabled {
+					if opt.want(x.kind, x.i) {
+						a, found = x, true
+						break
+					}
+				}
+				if !found {
+					return false
+				}
+			} else {
+				a = enabled[rapid.IntRange(0, len(enabled)-1).Draw(rt, "pick")]
+			}
 			// what the other connections are parked in while this step runs
 			for _, o := range conns {
 				if o == m || o.steps == 0 || o.complete() {
 					continue
 				}
 				o.interleaved = true
+				if o.handshaken() {
+					continue
+				}
 				heldSomewhere := false
 				for i, g := range o.gates {
 					if g != nil && o.started[i] && g.isHeld() {
@@ -188,17 +344,31 @@ func TestVerifC14Interleaved(t *testing.T) {
 					o.overlapRead = true
 				}
 			}
+			hsBefore := m.handshaken()
 			e := m.ends[a.i]
 			switch a.kind {
 			case "start":
 				m.started[a.i] = true
+				g, p := m.gates[a.i], m.prs[a.i]
 				switch {
 				case e.real && e.side == wire.A:
-					g := m.gates[a.i]
-					e.ep = drive.Start(m.n, e.side, func() (net.Conn, error) { return vfRealClientOn(g) })
+					e.ep = drive.Start(m.n, e.side, func() (net.Conn, error) {
+						cn, err := vfRealClientOn(g)
+						if err != nil {
+							return nil, err
+						}
+						p.Conn = cn
+						return p, nil
+					})
 				case e.real:
-					g := m.gates[a.i]
-					e.ep = drive.Start(m.n, e.side, func() (net.Conn, error) { return vfRealServerOn(g) })
+					e.ep = drive.Start(m.n, e.side, func() (net.Conn, error) {
+						cn, err := vfRealServerOn(g)
+						if err != nil {
+							return nil, err
+						}
+						p.Conn = cn
+						return p, nil
+					})
 				default:
 					e.ep = drive.Start(m.n, e.side, vfRefSetup(m.n, e.side, e.par, &e.ref))
 				}
@@ -207,26 +377,99 @@ func TestVerifC14Interleaved(t *testing.T) {
 				trace = append(trace, fmt.Sprintf("%d:letgo(%v,w%d)", m.idx, e.side, m.gates[a.i].heldWrite()))
 				m.gates[a.i].letGo()
 			case "release":
-				k := rapid.SampledFrom([]int{0, 0, 0, 1, 7, 16, 24, 100}).Draw(rt, "chunk")
+				k := 0
+				if !opt.all {
+					k = rapid.SampledFrom([]int{0, 0, 0, 1, 7, 16, 24, 100}).Draw(rt, "chunk")
+				}
 				if k <= 0 {
 					k = m.n.Pending(e.side)
 				}
 				got := m.n.Release(e.side, k)
 				trace = append(trace, fmt.Sprintf("%d:rel(%v,%d)", m.idx, e.side, got))
+			case "appwrite":
+				if g := m.gates[a.i]; g != nil {
+					g.holdAll(false) // only handshake writes are held
+				}
+				e.hsLen = int(m.n.Written(e.side))
+				if e.real && (e.hsLen < 24 || e.hsLen > 24+refobfs2.MaxPadding) {
+					fail("c14-handshake-length", "connection %d real side %v sent %d handshake bytes", m.idx, e.side, e.hsLen)
+				}
+				k := rapid.OneOf(rapid.IntRange(1, 100), rapid.IntRange(1, 3000)).Draw(rt, "wlen")
+				if k < opt.minWrite {
+					k += opt.minWrite
+				}
+				data := vfPayload(int(e.side)+2*m.idx, 0, k)
+				res, wn, _ := e.ep.Write(data)
+				if res.Failed() || res.Err != nil || wn != k {
+					fail("c14-write-error", "connection %d: Write(%d bytes) on side %v: %s (n=%d)", m.idx, k, e.side, res, wn)
+				}
+				e.sent = append(e.sent, data...)
+				m.wrote[a.i] = true
+				trace = append(trace, fmt.Sprintf("%d:write(%v,%d)", m.idx, e.side, k))
+			case "grant":
+				k := 65536
+				if opt.readLen > 0 {
+					k = opt.readLen
+					m.smallGrants[a.i]++
+				} else if m.smallGrants[a.i] < 3 && rapid.IntRange(0, 3).Draw(rt, "small-read") > 0 {
+					k = rapid.IntRange(1, 64).Draw(rt, "readlen")
+					m.smallGrants[a.i]++
+				}
+				m.prs[a.i].allow(k)
+				trace = append(trace, fmt.Sprintf("%d:read(%v,%d)", m.idx, e.side, k))
+			case "free":
+				m.prs[a.i].free()
+				trace = append(trace, fmt.Sprintf("%d:resume(%v)", m.idx, e.side))
 			}
 			m.steps++
 			if err := m.settle(); err != nil {
 				fail("c14-wedge", "%v", err)
 			}
 			checkConn(m, "after "+trace[len(trace)-1])
+			if !hsBefore && m.handshaken() {
+				progressEvent(m)
+			}
 			return true
+		}
+		// Scenario (half of the cases): on connection 0 the peer finishes its
+		// handshake and writes before the real side has read anything, the peer's
+		// key establishment message and data are released as ONE segment, the real
+		// side's application reads only a few bytes, and the connection is left
+		// alone until another connection has completed a handshake or a first Read.
+		if rapid.Bool().Draw(rt, "scenario-unread") {
+			m0 := conns[0]
+			ri := 0
+			if !m0.ends[0].real || (m0.ends[1].real && rapid.Bool().Draw(rt, "scenario-side")) {
+				ri = 1
+			}
+			m0.prs[ri].stepped = true
+			w := m0.ends[1-ri]
+			for g := 0; g < 50 && !m0.ready(1-ri); g++ {
+				// everything except delivering the peer's bytes to the real side
+				if !step(m0, stepOpt{all: true, want: func(k string, i int) bool {
+					return k == "start" || k == "letgo" || (k == "release" && i == ri)
+				}}) {
+					break
+				}
+			}
+			step(m0, stepOpt{minWrite: 80, want: func(k string, i int) bool { return k == "appwrite" && i == 1-ri }})
+			for g := 0; g < 10 && m0.n.Pending(w.side) > 0; g++ {
+				step(m0, stepOpt{all: true, want: func(k string, i int) bool { return k == "release" && i == 1-ri }})
+			}
+			if step(m0, stepOpt{readLen: rapid.IntRange(1, 64).Draw(rt, "scenario-readlen"), want: func(k string, i int) bool { return k == "grant" && i == ri }}) {
+				frozen = m0
+			}
 		}
 		for guard := 0; ; guard++ {
 			var open []*vfMConn
 			for _, m := range conns {
-				if !m.complete() {
+				if !m.complete() && (m != frozen || thaw) {
 					open = append(open, m)
 				}
+			}
+			if len(open) == 0 && frozen != nil && !thaw {
+				thaw = true
+				continue
 			}
 			if len(open) == 0 {
 				break
@@ -237,57 +480,38 @@ func TestVerifC14Interleaved(t *testing.T) {
 			m := open[rapid.IntRange(0, len(open)-1).Draw(rt, "conn")]
 			burst := rapid.SampledFrom([]int{1, 1, 2, 3, 6, 1000}).Draw(rt, "burst")
 			for b := 0; b < burst && !m.complete(); b++ {
-				if !step(m) {
-					fail("c14-handshake-stuck", "connection %d: every handshake byte has been delivered and every write let through, but the handshake has not completed (A done=%v, B done=%v)", m.idx, m.ends[0].ep.SetupDone(), m.ends[1].ep.SetupDone())
+				if !step(m, stepOpt{}) {
+					fail("c14-handshake-stuck", "connection %d: nothing left to deliver or let through, but it is not complete (A: setup=%v wrote=%v; B: setup=%v wrote=%v)", m.idx,
+						m.ends[0].ep.SetupDone(), m.wrote[0], m.ends[1].ep.SetupDone(), m.wrote[1])
 				}
 			}
 		}
-		// ---- data phase: every connection carries data both ways ----
+		// ---- more data on every connection ----
 		for _, m := range conns {
-			for i, g := range m.gates {
-				if g != nil {
+			for i := range m.ends {
+				if g := m.gates[i]; g != nil {
 					g.holdAll(false)
-					if g.isHeld() {
-						fail("c14-wedge", "connection %d side %v: a transport write is held although the handshake has returned", m.idx, m.ends[i].side)
-					}
+				}
+				if p := m.prs[i]; p != nil {
+					p.free()
 				}
 			}
-			for _, e := range m.ends {
-				e.hsLen = int(m.n.Written(e.side))
-				if e.real && (e.hsLen < 24 || e.hsLen > 24+refobfs2.MaxPadding) {
-					fail("c14-handshake-length", "connection %d real side %v sent %d handshake bytes", m.idx, e.side, e.hsLen)
-				}
+			if err := m.settle(); err != nil {
+				fail("c14-wedge", "%v", err)
 			}
-			// whatever is still pending belongs to the handshakes (padding tails)
-			for _, e := range m.ends {
-				m.n.ReleaseAll(e.side)
-			}
-			if err := m.n.WaitQuiescent(wire.A, wire.B); err != nil {
-				fail("c14-wedge", "connection %d: %v", m.idx, err)
-			}
-			exact := func(ctx string) {
-				checkConn(m, ctx)
-				for i, w := range m.ends {
-					r := m.ends[1-i]
-					exp := int(m.n.Released(w.side)) - w.hsLen
-					if exp < 0 {
-						exp = 0
-					}
-					if got := r.ep.Got(); !bytes.Equal(got, w.sent[:exp]) {
-						fail("c14-stream", "%s: connection %d direction %v->%v: reader must hold exactly %d plaintext bytes, holds %d; first difference at %d (reader real=%v, writer real=%v)",
-							ctx, m.idx, w.side, r.side, exp, len(got), vfFirstDiff(got, w.sent[:exp]), r.real, w.real)
-					}
-				}
-			}
+			checkConn(m, "complete")
 			for round := 0; round < 2; round++ {
 				for _, e := range m.ends {
-					k := rapid.OneOf(rapid.IntRange(1, 100), rapid.IntRange(1, 3000)).Draw(rt, "wlen")
+					k := rapid.OneOf(rapid.IntRange(1, 100), rapid.IntRange(1, 3000)).Draw(rt, "wlen2")
 					data := vfPayload(int(e.side)+2*m.idx, len(e.sent), k)
 					res, wn, _ := e.ep.Write(data)
 					if res.Failed() || res.Err != nil || wn != k {
 						fail("c14-write-error", "connection %d: Write(%d bytes) on side %v: %s (n=%d)", m.idx, k, e.side, res, wn)
 					}
 					e.sent = append(e.sent, data...)
+					if int(m.n.Written(e.side)) != e.hsLen+len(e.sent) {
+						fail("c14-expansion", "connection %d side %v: %d bytes on the wire for a %d-byte handshake and %d plaintext bytes", m.idx, e.side, m.n.Written(e.side), e.hsLen, len(e.sent))
+					}
 				}
 				for _, e := range m.ends {
 					if round == 0 {
@@ -299,7 +523,7 @@ func TestVerifC14Interleaved(t *testing.T) {
 				if err := m.n.WaitQuiescent(wire.A, wire.B); err != nil {
 					fail("c14-wedge", "connection %d: %v", m.idx, err)
 				}
-				exact(fmt.Sprintf("data round %d", round))
+				checkConn(m, fmt.Sprintf("data round %d", round))
 			}
 			for i, w := range m.ends {
 				if got := m.ends[1-i].ep.Got(); !bytes.Equal(got, w.sent) {
@@ -331,6 +555,12 @@ func TestVerifC14Interleaved(t *testing.T) {
 			if m.overlapRead {
 				add("interleaved-other-ran-while-waiting-for-peer")
 			}
+			if m.unreadWhileOtherProgressed {
+				add("interleaved-unread-bytes-arrived-while-other-progressed")
+			}
+			if m.smallGrants[0]+m.smallGrants[1] > 0 {
+				add("interleaved-small-application-read")
+			}
 		}
 		if nt {
 			add("interleaved-nontrivial")
@@ -350,6 +580,13 @@ func TestVerifC14Interleaved(t *testing.T) {
 	})
 }
 
+func vfMinInt(a, b int) int {
+	if a < b {
+		return a
+	}
+	return b
+}
+
 // ---- free-running, under the race detector ---------------------------------------------
 
 func TestVerifC14Parallel(t *testing.T) {
@@ -364,10 +601,11 @@ func TestVerifC14Parallel(t *testing.T) {
 		base := rapid.Uint64().Draw(rt, "base")
 		for round := 0; round < rounds; round++ {
 			start := make(chan struct{})
-			errs := make(chan string, 2*G)
+			errs := make(chan string, 16*G)
 			var wg sync.WaitGroup
 			var nets []*wire.Net
 			for g := 0; g < G; g++ {
+				g := g // (the module declares go 1.20: loop variables are shared)
 				n := wire.NewFree(base + uint64(round*100+g))
 				nets = append(nets, n)
 				realClient := (g+round)%2 == 0
